@@ -13,7 +13,7 @@ every slot and patch validity by bitmap algebra, exactly like the code:
   clear_null : raw &= valid
   select_op  : c = s_raw & sv; raw = if c then a_raw else b_raw; valid = (c & av) | (!c & bv)
   and        : c = binary_op(&&); valid |= (!ra & va) | (!rb & vb)
-  or         : c = binary_op(||); valid |= raw(c)
+  or         : c = binary_op(||); valid |= (ra & va) | (rb & vb); clear_null   (since /repo 0494ff0)
   div, rem   : safen_dividend(b) then binary_op(/ or %)   (rem safened since /repo f444b3f)
 
 Integer raw values are `Int`s constrained to the width of the array (`IW`); arithmetic is the
@@ -293,10 +293,14 @@ def andK (a b : Arr Bool) : KOut (Arr Bool) :=
   | .err => .err
   | .panic => .panic
 
-/-- `ArrayImpl::or`. -/
+/-- `ArrayImpl::or` (since /repo 0494ff0): `c = binary_op(||)`; `valid |= (ra & va) | (rb & vb)`;
+`clear_null`. -/
 def orK (a b : Arr Bool) : KOut (Arr Bool) :=
   match binaryOp (fun x y => KOut.ok (x || y)) a b with
-  | .ok c => .ok (orValid c (raws c))
+  | .ok c =>
+    let aTrue := bvAnd (raws a) (valids a)
+    let bTrue := bvAnd (raws b) (valids b)
+    .ok (clearNull (orValid (orValid c aTrue) bTrue))
   | .err => .err
   | .panic => .panic
 
@@ -314,9 +318,8 @@ def Col.not : Col → KOut Col
   | .bool a => .ok (.bool (notK a))
   | _ => .err
 
-/-- `ArrayImpl::neg` (integer arms). Int16 has no arm. -/
+/-- `ArrayImpl::neg` (integer arms; Int16 since /repo 942aa9d). -/
 def Col.neg : Col → KOut Col
-  | .int .w16 _ => .err
   | .int w a =>
     match unaryOp (negW w) a with
     | .ok c => .ok (.int w c)
@@ -324,8 +327,8 @@ def Col.neg : Col → KOut Col
     | .panic => .panic
   | _ => .err
 
-/-- `ArrayImpl::select`: arms exist for the integer variants only (among those modelled):
-Bool and String have none. -/
+/-- `ArrayImpl::select`: integer arms; Bool (with `clear_null`) and String arms since /repo
+1187390. -/
 def Col.select : Col → Col → Col → KOut Col
   | .bool s, .int wa a, .int wb b =>
     if wa == wb then
@@ -334,6 +337,16 @@ def Col.select : Col → Col → Col → KOut Col
       | .err => .err
       | .panic => .panic
     else .err
+  | .bool s, .bool a, .bool b =>
+    match selectOp s a b with
+    | .ok c => .ok (.bool (clearNull c))
+    | .err => .err
+    | .panic => .panic
+  | .bool s, .str a, .str b =>
+    match selectOp s a b with
+    | .ok c => .ok (.str c)
+    | .err => .err
+    | .panic => .panic
   | _, _, _ => .err
 
 /-- `IsNull` in the evaluator: `valid.iter().map(|v| !v).collect()` (all slots valid). -/
@@ -452,27 +465,18 @@ termination_by ts xs => ts.length + xs.length
 def likeSpecToks (p : List Char) : List LTok :=
   p.map fun c => if c == '%' then .star else if c == '_' then .one else .lit c
 
-/-- What `like_to_regex` + the regex engine make of the pattern, for patterns over the modelled
-alphabet: `%` → `.*`, `_` → `.`, and every other character is pushed UNESCAPED, so a `.` in the
-pattern is a regex wildcard too. -/
+/-- What `like_to_regex` + the regex engine make of the pattern (since /repo 1ee6bdb): `(?s)`,
+`%` → `.*`, `_` → `.`, every other character escaped, i.e. a literal — the same token list as
+SQL LIKE, and `.` matches line feeds too. The escaped pattern is always a valid regex. -/
 def likeImplToks (p : List Char) : List LTok :=
-  p.map fun c => if c == '%' then .star else if c == '_' || c == '.' then .one else .lit c
+  p.map fun c => if c == '%' then .star else if c == '_' then .one else .lit c
 
-/-- Characters of a pattern whose regex meaning is modelled. -/
-def likeCharOk (c : Char) : Bool :=
-  c.isAlphanum || c == ' ' || c == '%' || c == '_' || c == '.' || c == '-' || c == '(' || c == '\n'
-
-/-- `Regex::new(..).unwrap()`: an unclosed group is a syntax error, i.e. a panic. -/
-def likePanics (p : List Char) : Bool := p.contains '('
-
-def likeImpl (p s : String) : Bool := matchT false (likeImplToks p.toList) s.toList
+def likeImpl (p s : String) : Bool := matchT true (likeImplToks p.toList) s.toList
 def likeSpec (p s : String) : Bool := matchT true (likeSpecToks p.toList) s.toList
 
-/-- `ArrayImpl::like`: `clear_null(unary_op(a, |s| regex.is_match(s)))`; the regex is compiled
-(and may panic) before any row is looked at. -/
+/-- `ArrayImpl::like`: `clear_null(unary_op(a, |s| regex.is_match(s)))`. -/
 def likeK (p : String) (a : Arr String) : KOut (Arr Bool) :=
-  if likePanics p.toList then .panic
-  else .ok (clearNull (a.map fun s => ⟨s.valid, likeImpl p s.raw⟩))
+  .ok (clearNull (a.map fun s => ⟨s.valid, likeImpl p s.raw⟩))
 
 def satI32 (x : Int) : Int :=
   if x < -2147483648 then -2147483648 else if x > 2147483647 then 2147483647 else x
